@@ -499,9 +499,9 @@ package core
 //@ func (*LinearState).Rem
 //@   assert[C15.lin_rem_hook_first] at "s.rem(ctx, id, true)": s.remHook == nil || hookRem == id
 //@ func (*IndexedState).deleteDependencies
-//@   assert[C15.ix_cascade_hook_first] at "call:rem": s.remHook == nil || hookRem == callarg(1)
+//@   assert[C15.ix_cascade_hook_first] at "call:rem": s.remHook == nil || hookRem == callarg(id)
 //@ func (*LinearState).deleteDependencies
-//@   assert[C15.lin_cascade_hook_first] at "call:rem": s.remHook == nil || hookRem == callarg(1)
+//@   assert[C15.lin_cascade_hook_first] at "call:rem": s.remHook == nil || hookRem == callarg(id)
 //@ func (*IndexedState).expire
 //@   assert[C15.ix_expire_hook_first] at "s.rem(ctx, id)": s.remHook == nil || hookRem == id
 //@ func (*LinearState).expire
@@ -707,7 +707,7 @@ package core
 //@   assert[C08.ix_cascade_removes_each_match]     at "call:rem": true
 //@ func (*LinearState).deleteDependencies
 //@   assert[C08.lin_cascade_removes_search_matches] at "s.search(ctx, pattern, false)": true
-//@   assert[C08.lin_cascade_removes_each_match]     at "call:rem": id != callarg(1)
+//@   assert[C08.lin_cascade_removes_each_match]     at "call:rem": id != callarg(id)
 //@ func (*IndexedState).get
 //@   assert[C07+C08.ix_get_purges_through_expire] at "s.expire(ctx, id, fact, 0)": true
 //@ func (*LinearState).get
@@ -1006,9 +1006,9 @@ package core
 //@   ensures[C01.pi_mod_never_drops_a_key]       piKeepsKeys()
 //@   ensures[C01.pi_mod_keeps_other_ids]         piKeepsOtherIds(id)
 //@   ensures[C01.pi_add_adds_no_foreign_id]      forall(s, StringSet, forall(x, string, !fresh(s) && x != id && has(s, x) ==> old(has(s, x))))
-//@   assert[C01.pi_mod_descends_with_all_remaining_pairs] at "call:mod": len(callarg(1)) >= len(pairs) - 1
-//@   assert[C01.pi_mod_descends_for_the_same_id_and_op]   at "call:mod": callarg(2) == id && callarg(3) == op
-//@   assert[C01.pi_mod_descends_with_the_remaining_pairs_last] at "call:mod": restLast(callarg(1))
+//@   assert[C01.pi_mod_descends_with_all_remaining_pairs] at "call:mod": len(callarg(pairs)) >= len(pairs) - 1
+//@   assert[C01.pi_mod_descends_for_the_same_id_and_op]   at "call:mod": callarg(id) == id && callarg(op) == op
+//@   assert[C01.pi_mod_descends_with_the_remaining_pairs_last] at "call:mod": restLast(callarg(pairs))
 
 // ---- C01: the trie's read path never writes the trie ---------------------------------------------
 //@ define ssOthersUnchanged(s) = forall(t, StringSet, t != s ==> len(t) == old(len(t))) && forall(t, StringSet, forall(y, string, t != s ==> has(t, y) == old(has(t, y))))
@@ -1024,8 +1024,8 @@ package core
 //@   ensures[C01.pi_search_leaves_nodes_alone] piNodesUnchanged()
 //@   ensures[C01.pi_search_leaves_keys_alone]  piKeysUnchanged()
 //@   ensures[C01.pi_search_leaves_ids_alone]   piIdsUnchanged()
-//@   assert[C01.pi_search_descends_with_all_remaining_pairs] at "call:searchPairs": len(callarg(1)) >= len(pairs) - 1
-//@   assert[C01.pi_search_map_value_descends_with_the_remaining_pairs_last] at "call:searchPairs@Map": restLast(callarg(1))
+//@   assert[C01.pi_search_descends_with_all_remaining_pairs] at "call:searchPairs": len(callarg(pairs)) >= len(pairs) - 1
+//@   assert[C01.pi_search_map_value_descends_with_the_remaining_pairs_last] at "call:searchPairs@Map": restLast(callarg(pairs))
 //@   loop 2: invariant[C01.pi_search_loop] piNodesUnchanged() && piKeysUnchanged() && piIdsUnchanged()
 
 // C02: "searching returns exactly the stored facts that match": when add() stores the fact, the id is in the term index under
@@ -1193,7 +1193,7 @@ package core
 // Store.Remove, without the cascade.)
 //@ func (*IndexedState).Load
 //@   ensures[C08+C10.ix_load_purges_with_the_cascade] result == nil ==> cascades - old(cascades) >= refusals - old(refusals)
-//@   assert[C08+C10.ix_load_cascades_for_the_purged_id] at "call:deleteDependencies": callarg(1) == stRemKey
+//@   assert[C08+C10.ix_load_cascades_for_the_purged_id] at "call:deleteDependencies": callarg(id) == stRemKey
 //@   loop 1: invariant[C08+C10.ix_load_first_loop_removes_nothing] stRems == old(stRems) && cascades == old(cascades) && len(expired) == refusals - old(refusals)
 //@   loop 2: invariant[C08+C10.ix_load_cascade_per_purged_record] len(expired) == refusals - old(refusals) && rangeindex < len(expired) && cascades >= old(cascades) + rangeindex + 1
 // (LinearState.Load purges nothing: expired records are dropped by the first search that meets them, through rem())
@@ -1226,6 +1226,56 @@ package core
 // C06/C09: what setParents stores is a list (never nil: a nil list is written as JSON null, which getParents refuses after a
 // reload) with one element per given parent, in order.
 //@ func (*Location).setParents
-//@   assert[C06+C09.setparents_stores_a_list_of_the_given_names] at "call:SetProp": is(callarg(4), []interface{}) && callarg(4).([]interface{}) != nil && len(callarg(4).([]interface{})) == len(parents)
-//@   assert[C06+C09.setparents_stores_the_given_names_in_order] at "call:SetProp": forall(i, int, 0 <= i && i < len(parents) ==> is(callarg(4).([]interface{})[i], string) && callarg(4).([]interface{})[i].(string) == parents[i])
+//@   assert[C06+C09.setparents_stores_a_list_of_the_given_names] at "call:SetProp": is(callarg(val), []interface{}) && callarg(val).([]interface{}) != nil && len(callarg(val).([]interface{})) == len(parents)
+//@   assert[C06+C09.setparents_stores_the_given_names_in_order] at "call:SetProp": forall(i, int, 0 <= i && i < len(parents) ==> is(callarg(val).([]interface{})[i], string) && callarg(val).([]interface{})[i].(string) == parents[i])
 //@   loop 1: invariant[C06+C09.setparents_loop] len(ps) == len(parents) && ps != nil && forall(i, int, 0 <= i && i <= rangeindex ==> is(ps[i], string) && ps[i].(string) == parents[i])
+
+// C05/C02/C01: an error of the matcher is an error of the search or dispatch that asked (a fact or rule the matcher could not
+// judge is never silently left out). A purge made while searching (expire) runs its own cascade search: its matcher errors
+// are the cascade's, swallowed by design with the rest of the purge's errors.
+//@ ghost matcherFailed bool gate
+//@ func Matches
+//@   ghost-ensures matcherFailed == (old(matcherFailed) || result1 != nil)
+//@   also-modifies matcherFailed
+//@ func (*IndexedState).expire
+//@   ghost-ensures matcherFailed == old(matcherFailed)
+//@ func (*LinearState).expire
+//@   ghost-ensures matcherFailed == old(matcherFailed)
+//@ func (*IndexedState).search
+//@   ensures[C05+C02.ix_search_reports_matcher_errors] matcherFailed ==> result1 != nil
+//@   loop 1: invariant[C05+C02.ix_search_loop_no_matcher_error] !matcherFailed
+//@ func (*LinearState).search
+//@   ensures[C05+C02.lin_search_reports_matcher_errors] matcherFailed ==> result1 != nil
+//@   loop 1: invariant[C05+C02.lin_search_loop_no_matcher_error] !matcherFailed
+//@ func (*LinearState).doFindRules
+//@   ensures[C05+C01.lin_findrules_reports_matcher_errors] matcherFailed ==> result1 != nil
+//@   loop 1: invariant[C05+C01.lin_findrules_loop_no_matcher_error] !matcherFailed
+
+// C09: a script's Search sees the location's inherited facts too (the in-script API has no switch for it).
+//@ func LocationFunctions$4
+//@   assert[C09.script_search_includes_inherited_facts] at "call:SearchFacts": callarg(includeInherited) == true
+
+// C06/C10: enabling or disabling a rule writes (or removes) a property; if that write fails the caller is told.
+//@ ghost propWriteErr bool gate
+//@ func SetProp
+//@   ghost-ensures propWriteErr == (old(propWriteErr) || result1 != nil)
+//@   also-modifies propWriteErr
+//@ func RemProp
+//@   ghost-ensures propWriteErr == (old(propWriteErr) || result1 != nil)
+//@   also-modifies propWriteErr
+//@ func (*Location).EnableRule
+//@   ensures[C06+C10.enablerule_reports_a_failed_property_write] propWriteErr ==> result != nil
+
+// C02/C11: every generated id is made of bytes read from the system's random source by the call that generates it (no pool or
+// shared buffer that could hand the same bytes out twice or be raced on): one read of the io.Reader per id.
+//@ ghost ioReads int
+//@ iface io.Reader.Read
+//@   ghost-ensures ioReads == old(ioReads) + 1
+//@   also-modifies ioReads
+//@ func UUID
+//@   ensures[C02+C11.uuid_reads_fresh_random_bytes] result != "" ==> ioReads == old(ioReads) + 1
+
+// C14/C04: the private copy of an event that a script gets is the event: Copy copies maps (deeply) and hands everything else
+// back as it is - arrays included, element for element.
+//@ func Copy
+//@   ensures[C14+C04.copy_hands_back_what_is_not_a_map] !is(x, Map) && !is(x, map[string]interface{}) && !is(x, map[interface{}]interface{}) ==> result == x
